@@ -60,6 +60,16 @@ def lattice_curve(rnd, n, grid, dim=2, closed=False):
     raise RuntimeError('no curve')
 
 
+def with_repeats(rnd, pts, prob=0.3):
+    """the same polyline listed with consecutive exact repeats (segments that share their joints: a,b,b,c,c,d)"""
+    out = []
+    for q in pts:
+        out.append(list(q))
+        while rnd.random() < prob:
+            out.append(list(q))
+    return out
+
+
 def cum(pts):
     c = [0]
     for a, b in zip(pts, pts[1:]):
@@ -77,6 +87,8 @@ def gen_c01_random(rnd, tier):
         pts = lattice_curve(rnd, nv, 16, dim, closed=fc)
         built = pts + [pts[0]] if fc else pts
         c = cum(built)
+        if rnd.random() < 0.3:
+            pts = with_repeats(rnd, pts)            # the listing repeats some joints; the curve is the same
         tot = 2 * c[-1]
         ls = [[rnd.randint(-1, tot + 1), 0] for _ in range(30)] + [[-1, 0], [0, 0], [tot, 0], [tot + 1, 0]]
         for k in c:
@@ -117,6 +129,8 @@ def gen_c05_random(rnd, tier):
         pts = lattice_curve(rnd, nv, 14, dim, closed=fc)
         built = pts + [pts[0]] if fc else pts
         L2 = 2 * cum(built)[-1]
+        if rnd.random() < 0.25:
+            pts = with_repeats(rnd, pts)            # the listing repeats some joints; the curve is the same
         mode = rnd.choice(('count', 'count', 'spacing', 'maxspacing', 'spacing_div', 'spacing_div'))
         if mode == 'spacing_div':
             k = rnd.randint(3, 160)            # spacing = length / k as a float: divides the length only up to rounding
@@ -182,4 +196,62 @@ def gen_c12_random(rnd, tier):
             fb = [[i + len(va) for i in f] for f in fa[: max(1, len(fa) // 2)]]
             out.append({'m': 'topo', 'op': 'mesh', 'wd': 3000, 'reps': 3, 'nv': 2 * len(va), 'vpos': va + vb, 'faces': fa + fb,
                         'split': [len(va), len(fa)], 'sc': rnd.choice((0, -3))})
+    return out
+
+
+def gen_c05_long_shallow(rnd, tier):
+    """simplification of long shallow polylines: chord lengths 2^20..2^33 times the deviations (x = X * 2^kx, y / z a few units),
+    tolerances below, at and above the kink heights"""
+    out = []
+    for _ in range(150 if tier == 'quick' else 3000):
+        n = rnd.randint(3, 8)
+        X = [0]
+        for _k in range(n - 1):
+            X.append(X[-1] + rnd.randint(1, 9))
+        dim = rnd.choice((2, 3))
+        ys = [rnd.choice((0, 0, 0, 1, -1, 2, -3)) for _k in range(n)]
+        zs = [rnd.choice((0, 0, 1, -2)) if dim == 3 else 0 for _k in range(n)]
+        if rnd.random() < 0.5:
+            ys[0] = ys[-1] = 0; zs[0] = zs[-1] = 0
+        out.append({'m': 'curve', 'op': 'simplify_long', 'dim': dim, 'pts': [[X[k], ys[k], zs[k]] for k in range(n)],
+                    'kx': rnd.randint(20, 30), 'e4': rnd.choice((1, 2, 3, 4, 5, 8, 13)), 'sc': rnd.choice((0, -10, -20, 7)), 'tolU': 0})
+    return out
+
+
+def gen_c01_free(rnd, tier):
+    """general lattice polylines (irrational edge lengths, any edge-length ratios): a long lead (up to 2^13 units) followed by
+    short oblique edges, and plain random walks; stations inside every edge at eighths of the edge and at the vertices"""
+    out = []
+    for _ in range(60 if tier == 'quick' else 1200):
+        dim = rnd.choice((2, 3))
+        n = rnd.randint(3, 9)
+        lead = rnd.choice((0, 0, 1 << 8, 1 << 12, 1 << 13, 8000))        # (coordinates * 2^16 must stay within TLC's 31 bits)
+        pts = [[0, 0, 0]]
+        if lead:
+            pts.append([lead, rnd.randint(-3, 3), 0 if dim == 2 else rnd.randint(-3, 3)])
+        while len(pts) < n:
+            st = [rnd.randint(-4, 4), rnd.randint(-4, 4), 0 if dim == 2 else rnd.randint(-4, 4)]
+            if st == [0, 0, 0]:
+                continue
+            prev = [pts[-1][k] - pts[-2][k] for k in range(3)] if len(pts) > 1 else None
+            if prev is not None:
+                cr = [prev[1] * st[2] - prev[2] * st[1], prev[2] * st[0] - prev[0] * st[2], prev[0] * st[1] - prev[1] * st[0]]
+                if cr == [0, 0, 0] and sum(a * b for a, b in zip(prev, st)) < 0:
+                    continue            # exact reversal: the vertex direction is undefined there
+            pts.append([pts[-1][k] + st[k] for k in range(3)])
+        if any(pts[a] == pts[a + 1] for a in range(len(pts) - 1)):
+            continue
+        fc = dim == 2 and lead == 0 and rnd.random() < 0.3 and pts[0] != pts[-1]
+        if fc:
+            # the closing edge must not reverse either neighbour exactly
+            cl = [pts[0][k] - pts[-1][k] for k in range(3)]
+            bad = False
+            for other in ([pts[-1][k] - pts[-2][k] for k in range(3)], [pts[1][k] - pts[0][k] for k in range(3)]):
+                if other[0] * cl[1] - other[1] * cl[0] == 0 and other[0] * cl[0] + other[1] * cl[1] < 0:
+                    bad = True
+            if bad:
+                fc = False
+        ne = len(pts) - 1 + (1 if fc else 0)
+        req = [[e, k] for e in range(ne) for k in (0, 1, 3, 4, 7, 8)]
+        out.append({'m': 'curve', 'op': 'free', 'dim': dim, 'tolU': 0, 'fc': fc, 'sc': rnd.choice((0, -10, 4, -20, 12)), 'pts': pts, 'req': req})
     return out
